@@ -1,19 +1,17 @@
 #!/usr/bin/env python3
-"""C06 detection demo show_from_lowest: ShowFrom cuts at the lowest (leaf-most) matching location of a sample instead of the highest.
+"""C06 detection demo range_second_unit_ignored: the upper bound of a closed range N:M is read in the unit of the lower bound (1b:2kb becomes 1b:2b).
 
-Exact-text substitution on the current /repo/profile/filter.go; nothing under /repo is
+Exact-text substitution on the current /repo/internal/driver/driver_focus.go; nothing under /repo is
 touched. Prints the path of a `go build -overlay` json:
-    ov=$(python3 /verif/demos/C06_show_from_lowest.py)
+    ov=$(python3 /verif/demos/C06_range_second_unit_ignored.py)
     cd /repo && go test -overlay $ov -vet=off -count=1 ./...     # existing suite
     cd /verif && ./pmc check C06 --solo --extra $ov              # must report a VIOLATION
 """
 import json, os
-SRC = '/repo/profile/filter.go'
-OUT = '/tmp/c06-demo/show_from_lowest'
+SRC = '/repo/internal/driver/driver_focus.go'
+OUT = '/tmp/c06-demo/range_second_unit_ignored'
 SUBS = [
-    ("""		for i := len(sample.Location) - 1; i >= 0; i-- {
-			if showFromLocs[sample.Location[i].ID] {""", """		for i := 0; i < len(sample.Location); i++ {
-			if showFromLocs[sample.Location[i].ID] {"""),
+    ("scaledValue2, unit2 := measurement.Scale(v, ranges[1][2], unit)", "scaledValue2, unit2 := measurement.Scale(v, ranges[0][2], unit)"),
 ]
 s = open(SRC).read()
 for old, new in SUBS:
